@@ -142,7 +142,11 @@ impl Rat {
             return false;
         }
         let frac = bits & ((1u64 << 52) - 1);
-        let tz = if frac == 0 { 52 } else { frac.trailing_zeros() as i64 };
+        let tz = if frac == 0 {
+            52
+        } else {
+            frac.trailing_zeros() as i64
+        };
         let e = exp - 1075 + tz; // exponent of the odd mantissa
         let mbits = 53 - tz;
         e <= 60 && -e <= 100 && mbits + e.max(0) <= 100
@@ -268,7 +272,16 @@ mod tests {
     use super::*;
     #[test]
     fn roundtrip() {
-        for v in [0.0, 1.0, -1.5, 0.1, 1e-10, 123456.789, 1.0 + f64::EPSILON, -3.0e10] {
+        for v in [
+            0.0,
+            1.0,
+            -1.5,
+            0.1,
+            1e-10,
+            123456.789,
+            1.0 + f64::EPSILON,
+            -3.0e10,
+        ] {
             let r = Rat::from_f64(v);
             assert_eq!(r.to_f64(), v, "{v}");
         }
@@ -287,4 +300,27 @@ mod tests {
         let x = solve(a, vec![Rat::int(3), Rat::int(5)]).unwrap();
         assert_eq!(x, vec![Rat::new(4, 5), Rat::new(7, 5)]);
     }
+}
+
+impl Rat {
+    /// exact conversion, `None` when the value needs more than the supported range
+    pub fn try_from_f64(v: f64) -> Option<Rat> {
+        if Rat::f64_fits(v) {
+            Some(Rat::from_f64(v))
+        } else {
+            None
+        }
+    }
+}
+
+/// number of significant mantissa bits of a finite non-zero f64 (0 for 0.0)
+pub fn sig_bits(v: f64) -> u32 {
+    if v == 0.0 || !v.is_finite() {
+        return 0;
+    }
+    let bits = v.to_bits();
+    let exp = (bits >> 52) & 0x7ff;
+    let frac = bits & ((1u64 << 52) - 1);
+    let m = if exp == 0 { frac } else { frac | (1u64 << 52) };
+    64 - m.leading_zeros() - m.trailing_zeros()
 }
